@@ -38,6 +38,7 @@ def run(ctx):
     lib_kind4.row_eager(ctx, py)
     from . import lib_kind2
     lib_kind2.keep_rows_atomic(ctx, P)
+    lib_kind2.append_offset(ctx, P)
     lib_kind.dict_atomic(ctx, P)
     lib_kind.takeset_atomic(ctx, P)
     from . import lib_kind3
